@@ -61,3 +61,61 @@ Example C02_nonvacuous :
 Proof. vm_compute. repeat split; reflexivity. Qed.
 Print Assumptions C02_float_instances.
 Print Assumptions C02_nonvacuous.
+
+(* ---------- three helper bodies that harness/translate/Leaf.py only pins, as regenerated source (Gen/FactsLeafSrc.v) ----------
+   harness/translate/LeafSrc.py dumps utils.is_homogeneous_tuple_type, utils.get_container_nargs and FieldWrapper.postprocess
+   statement by statement into MiniPy; the theorems say that the MiniPy interpreter computes from them what Model/Leaf.v says.
+   Annotations are values (enc_ty, injective on what ty_eqb compares); is_tuple / is_list / get_type_arguments are uninterpreted
+   tables that answer on the encodings as the model reads the annotation (tables_ok).  Deviations stated as hypotheses:
+   - container_nargs (TTupFix []) is NNum 0 in the model, the source answers "*" for an un-parametrised Tuple: ts <> [];
+   - the source compares annotation OBJECTS (len(set(args)) == 1); ty_eqb never equates Literal / fixed-tuple items with
+     themselves: the first item must be one that ty_eqb equates with itself (or be the only item);
+   - postprocess: the attributes and helpers it reads are the explicit abstraction post_env t r; r ranges over the raw values
+     raw_ok t r (what take_values produces: a member name for an Enum, a key for a Literal, a list for containers, ..).
+     `tuple(x)`, `type(..)`, isinstance(x, key_type) and the try / except around self.type(raw) are uninterpreted tables of post_env. *)
+From SPV Require Import Model.MiniPy Gen.FactsLeafSrc Proofs.MiniPyLeaf.
+
+Theorem C02_source_container_nargs_is_model : forall T t,
+  tables_ok T t -> (forall ts, t = TTupFix ts -> ts <> [] /\ Forall (tables_ok T) ts) -> is_container t = true ->
+  MiniPy.run (ty_env T "container_type" t) get_container_nargs_src = Ok (enc_nargs (container_nargs t)).
+Proof. exact get_container_nargs_is_model. Qed.
+Print Assumptions C02_source_container_nargs_is_model.
+
+Theorem C02_source_homogeneous_is_model : forall T t,
+  tables_ok T t -> (forall t0 r, t = TTupFix (t0 :: r) -> r = [] \/ ty_eqb t0 t0 = true) ->
+  MiniPy.run (ty_env T "t" t) is_homogeneous_tuple_type_src = Ok (MiniPy.VB (hom_model t)).
+Proof. exact is_homogeneous_tuple_type_is_model. Qed.
+Print Assumptions C02_source_homogeneous_is_model.
+
+(* hom_model is the test Leaf.parsing_fn makes *)
+Theorem C02_source_homogeneous_is_parsing_fn_test : forall t0 r,
+  parsing_fn (TTupFix (t0 :: r)) = if hom_model (TTupFix (t0 :: r)) then parsing_fn t0 else KSeq (map parsing_fn (t0 :: r)).
+Proof. reflexivity. Qed.
+Print Assumptions C02_source_homogeneous_is_parsing_fn_test.
+
+Theorem C02_source_postprocess_is_model : forall t r,
+  raw_ok t r = true -> MiniPy.run (post_env t r) postprocess_src = Ok (DefaultsPipeline.enc_value (postprocess t r)).
+Proof. exact postprocess_is_model. Qed.
+Print Assumptions C02_source_postprocess_is_model.
+
+(* non-vacuity: concrete tables for Tuple[int, str], Tuple[int, int], Tuple[int, List[int]]; the dumped statements run *)
+Definition NVL_TYS : list ty := [TInt; TStr; TList TInt; TTupFix [TInt; TStr]; TTupFix [TInt; TInt]; TTupFix [TInt; TList TInt]; TTupVar TStr].
+Definition NVL_T : ty_tables :=
+  mktt (map (fun u => (enc_ty u, MiniPy.VB (is_tup_ty u))) NVL_TYS) (map (fun u => (enc_ty u, MiniPy.VB (is_list_ty u))) NVL_TYS)
+       (map (fun u => (enc_ty u, MiniPy.VT (args_of u))) NVL_TYS).
+Example C02_source_nonvacuous :
+  Forall (tables_ok NVL_T) NVL_TYS
+  /\ MiniPy.run (ty_env NVL_T "container_type" (TTupFix [TInt; TStr])) get_container_nargs_src = Ok (MiniPy.VN 2)
+  /\ MiniPy.run (ty_env NVL_T "container_type" (TTupFix [TInt; TList TInt])) get_container_nargs_src = Ok (MiniPy.VS "*")
+  /\ MiniPy.run (ty_env NVL_T "container_type" (TTupVar TStr)) get_container_nargs_src = Ok (MiniPy.VS "*")
+  /\ MiniPy.run (ty_env NVL_T "container_type" TInt) get_container_nargs_src = Err (Raise "NotImplementedError")
+  /\ MiniPy.run (ty_env NVL_T "t" (TTupFix [TInt; TInt])) is_homogeneous_tuple_type_src = Ok (MiniPy.VB true)
+  /\ MiniPy.run (ty_env NVL_T "t" (TTupFix [TInt; TStr])) is_homogeneous_tuple_type_src = Ok (MiniPy.VB false)
+  /\ MiniPy.run (post_env (TEnum ["RED"; "BLUE"]) (ROne (VStr "BLUE"))) postprocess_src = Ok (DefaultsPipeline.enc_value (VEnum "BLUE"))
+  /\ MiniPy.run (post_env (TLit [LStr "a"; LInt 3]) (ROne (VStr "3"))) postprocess_src = Ok (DefaultsPipeline.enc_value (VInt 3))
+  /\ MiniPy.run (post_env (TTupFix [TInt; TStr]) (RMany [VInt 1; VStr "x"])) postprocess_src = Ok (DefaultsPipeline.enc_value (VTup [VInt 1; VStr "x"]))
+  /\ MiniPy.run (post_env (TTupVar TInt) RNone) postprocess_src = Ok MiniPy.VNone
+  /\ MiniPy.run (post_env (TOpt (TTupVar TInt)) (RMany [VInt 1])) postprocess_src = Ok (DefaultsPipeline.enc_value (VTup [VInt 1]))
+  /\ raw_ok (TLit [LStr "a"]) (ROne (VStr "b")) = false.
+Proof. split; [repeat constructor|]. vm_compute. repeat split; reflexivity. Qed.
+Print Assumptions C02_source_nonvacuous.
